@@ -62,7 +62,7 @@ def _worker(args):
     try:
         rs = run_seed_for(base_seed, prop, tier, index)
         cfg = scn.gen_config(random.Random(H(rs, "config")), tier, index)
-        res = execute_run(scn, cfg, run_seed=rs, keep_events=(8 if index < 3 else 0))
+        res = core.run_for(scn)(scn, cfg, run_seed=rs, keep_events=(8 if index < 3 else 0))
         res["index"] = index
         res["run_seed"] = rs
         if res["violation"] is None:
@@ -83,7 +83,7 @@ def determinism_recheck(scn, prop, tier, base_seed, indices, shas):
     for i in indices:
         rs = run_seed_for(base_seed, prop, tier, i)
         cfg = scn.gen_config(random.Random(H(rs, "config")), tier, i)
-        res = execute_run(scn, cfg, run_seed=rs)
+        res = core.run_for(scn)(scn, cfg, run_seed=rs)
         if res["sha"] != shas[i]:
             mism += 1
     return mism
@@ -267,7 +267,7 @@ def main(argv=None):
 def replay_file(scn, prop, path):
     with open(path) as f:
         doc = json.load(f)
-    res = execute_run(scn, doc["config"], tape_values=doc["tape"], keep_events=20)
+    res = core.run_for(scn)(scn, doc["config"], tape_values=doc["tape"], keep_events=20)
     v = res["violation"]
     want = doc["violation"]
     if v is None:
